@@ -28,8 +28,12 @@ fp("dask/dataframe/dask_expr/_shuffle.py", "SimpleShuffle._layer", "TaskShuffle.
 fp("dask/utils.py", "digit", "insert")
 # C38
 fp("dask/dataframe/dask_expr/_groupby.py", "SingleAggregation.chunk", "SingleAggregation.aggregate", "GroupByReduction",
-   "IdxMin", "Mean", "Var", "NUnique", "Median", "GroupByCumulative._lower", "GroupByCumulativeFinalizer._layer")
-fp("dask/dataframe/groupby.py", "_groupby_aggregate", "_apply_chunk", "_cum_agg_aligned", "_cum_agg_filled", "_var_chunk", "_var_agg")
+   "IdxMin", "IdxMax", "Mean", "Var", "NUnique", "nunique_df_aggregate", "nunique_df_combine", "Median", "Cov",
+   "GroupByCumulative._lower", "GroupByCumulativeFinalizer._layer", "GroupByCumsum", "GroupByCumprod", "GroupByCumcount",
+   "GroupByBFill", "groupby_slice_fill")
+fp("dask/dataframe/groupby.py", "_groupby_aggregate", "_apply_chunk", "_cum_agg_aligned", "_cum_agg_filled", "_cumcount_aggregate",
+   "_var_chunk", "_var_agg", "_nunique_df_chunk", "_nunique_df_combine", "_cov_chunk", "_cov_agg", "_cov_finalizer", "_value_counts",
+   "_value_counts_aggregate", "_groupby_slice_transform", "_groupby_slice_apply", "_groupby_slice_shift")
 fp("dask/dataframe/dask_expr/_reductions.py", "ApplyConcatApply._lower", "ShuffleReduce._lower", "TreeReduce._layer")
 # C39
 fp("dask/dataframe/dask_expr/_merge.py", "Merge._lower", "Merge.is_broadcast_join", "Merge.broadcast_side",
@@ -86,3 +90,29 @@ def groupby_aggs(repo):
     body = ",\n  ".join(f'("{a}", "{b}", "{c}")' for a, b, c in rows)
     return ("namespace Dask.Generated\n\n/-- (class, groupby_chunk, groupby_aggregate) -/\n"
             f"def groupbyAggs : List (String × String × String) := [\n  {body}]\n\nend Dask.Generated\n")
+
+
+@table("GroupbyCums")
+def groupby_cums(repo):
+    """(`chunk`, `aggregate`, `initial`) of every `GroupByCumulative` subclass of dask_expr/_groupby.py: the scan applied to
+    each partition, the operation that combines a partition's cells with the carried running value, and its identity.
+    Props/C38.lean pins them to the operations of `cumulative_eq_global` (cumsum/cumprod/cumcount)."""
+    tree = parse(repo, "dask/dataframe/dask_expr/_groupby.py")
+    rows = []
+    for c in tree.body:
+        if isinstance(c, ast.ClassDef) and any(ast.unparse(b) == "GroupByCumulative" for b in c.bases):
+            attrs = {}
+            for st in c.body:
+                if isinstance(st, ast.Assign) and len(st.targets) == 1 and isinstance(st.targets[0], ast.Name):
+                    attrs[st.targets[0].id] = st.value
+            try:
+                initial = ast.literal_eval(attrs["initial"])
+                rows.append((c.name, _method_name(attrs["chunk"]), _method_name(attrs["aggregate"]), int(initial)))
+            except (KeyError, ValueError) as e:
+                raise ExtractError(f"{c.name}: chunk/aggregate/initial not found as class attributes ({e})")
+    if {r[0] for r in rows} != {"GroupByCumsum", "GroupByCumprod", "GroupByCumcount"}:
+        raise ExtractError(f"GroupByCumulative subclasses changed: {sorted(r[0] for r in rows)}")
+    rows.sort()
+    body = ",\n  ".join(f'("{a}", "{b}", "{c}", {d if d >= 0 else "(" + str(d) + ")"})' for a, b, c, d in rows)
+    return ("namespace Dask.Generated\n\n/-- (class, chunk, aggregate, initial) -/\n"
+            f"def groupbyCums : List (String × String × String × Int) := [\n  {body}]\n\nend Dask.Generated\n")
